@@ -12,24 +12,11 @@ pub struct LinesCodec;
 /// `impl AsRef<str>` argument of `encode`: a value whose `as_ref()` is a str with known UTF-8 bytes
 #[verifier::external_body]
 pub struct StrLike { _p: () }
-#[verifier::external_body]
-pub struct Str { _p: () }
 impl StrLike {
     pub uninterp spec fn bytes(&self) -> Seq<u8>;
     #[verifier::external_body]
     pub fn as_ref(&self) -> (r: &Str)
         ensures r.bytes() == self.bytes(),
-    { unimplemented!() }
-}
-impl Str {
-    pub uninterp spec fn bytes(&self) -> Seq<u8>;
-    #[verifier::external_body]
-    pub fn len(&self) -> (r: usize)
-        ensures r == self.bytes().len(), r <= isize::MAX as usize,   // Rust slices never exceed isize::MAX bytes
-    { unimplemented!() }
-    #[verifier::external_body]
-    pub fn as_bytes(&self) -> (r: &[u8])
-        ensures r@ == self.bytes(),
     { unimplemented!() }
 }
 
@@ -156,7 +143,7 @@ impl Decoder for LinesCodec {
 
 }
 
-//@extract file=actix-codec/src/lines.rs item="fn try_into_utf8" ret=r props=C15 closures=1
+//@extract file=actix-codec/src/lines.rs item="fn try_into_utf8" ret=r props=C15 closures=1 str_paths
 //@spec
     ensures
         r.is_ok() <==> is_utf8(buf@),
